@@ -26,10 +26,11 @@ Build(s, cuts, solo, outer, lead) ==
   IN IF outer THEN <<Group(withlead)>> ELSE withlead
 MCInit ==
   \E s \in Lists : \E cuts \in SUBSET (1..(Len(s) - 1)) : \E solo \in SUBSET (1..(Cardinality(cuts) + 1)) :
-    \* flip: every group is built with the side-agnostic WithOptions (TRUE), or WithClientOptions / WithHandlerOptions
-    \* at even nesting depth and WithOptions at odd depth (FALSE)
-    \E outer \in BOOLEAN, lead \in BOOLEAN, side \in {"client", "handler"}, shape \in {"unary", "stream"}, flip \in BOOLEAN :
-      InitWith([opts |-> Build(s, cuts, solo, outer, lead), side |-> side, shape |-> shape, flip |-> flip])
+    \* grouping: which constructor builds a group -- "alt": WithClientOptions / WithHandlerOptions at even nesting depth and
+    \* the side-agnostic WithOptions at odd depth; "both": WithOptions everywhere; "side": the side-specific ones everywhere
+    \E outer \in BOOLEAN, lead \in BOOLEAN, side \in {"client", "handler"}, shape \in {"unary", "stream"},
+       g \in {"alt", "both", "side"} :
+      InitWith([opts |-> Build(s, cuts, solo, outer, lead), side |-> side, shape |-> shape, grouping |-> g])
 MCSpec == MCInit /\ [][Next]_vars
 
 (* C19: the recover interceptor at every position of a chain of up to three, every panic value and point *)
